@@ -1,4 +1,5 @@
 import PygVerif.Generated
+import PygVerif.Model.Site
 import PygVerif.Model.Umn
 import PygVerif.Lemmas.Str
 /-!
@@ -99,6 +100,24 @@ theorem plain_all_listed (c : DirCfg) (hc : c.umn = false) (d : Str) (kids : Lis
   subst h
   simp only [List.mem_filterMap, List.mem_filter]
   exact ⟨ch, ⟨(List.mergeSort_perm kids childLe).mem_iff.mpr hk, hv⟩, by simp [he]⟩
+
+/-! ### entries kept out of listings remain retrievable (whole-site model) -/
+
+/-- what a request is answered with does not depend on the listing configuration: neither the
+    ignore pattern, nor dot-file hiding, nor the choice of directory handler, nor extension
+    stripping takes part in resolving a selector -/
+theorem serve_ignores_listing_cfg (c : SiteCfg) (d' : DirCfg) (st : StatFn) (sel : Str) :
+    serve { c with dir := d' } st sel = serve c st sel ∧ dispatch { c with dir := d' } st sel = dispatch c st sel :=
+  ⟨rfl, rfl⟩
+
+/-- **Hidden but retrievable.**  A regular file whose selector passes the security filter is
+    served with its own bytes when requested by exact selector — whether or not a listing shows
+    it (dot file, ignore pattern, `Type=X`, `.cap` override all act on listings only).  (With the
+    gophermap handler configured, a file named `*.gophermap` is served as the menu it holds.) -/
+theorem hidden_still_retrievable (c : SiteCfg) (st : StatFn) (sel : Str) (d : Bytes)
+    (hs : secureB c.forbidden sel = true) (hst : st sel = some (.file d))
+    (hg : (c.gophermap && endsWithGophermap sel) = false) : serve c st sel = .document d := by
+  simp [serve, dispatch, hs, hst, hg]
 
 /-- dot files are never listed by the UMN handler; ignored names by neither -/
 theorem umn_hides_dotfiles (c : DirCfg) (hc : c.umn = true) (base : Str) (ch : Child)
